@@ -7,6 +7,7 @@ import CbiVerif.Drv.DbPath
 import CbiVerif.Drv.Exclude
 import CbiVerif.Drv.C08
 import CbiVerif.Drv.Argv
+import CbiVerif.Drv.C01
 /-! Native JSON-lines driver: one request object per line, one reply per line.
 Each area registers its ops in `CbiVerif/Drv/<Area>.lean`. -/
 open Lean
@@ -19,7 +20,8 @@ def handlerTable : List (String × (Json → Json)) :=
   CbiVerif.Drv.DbPath.handlers ++
   CbiVerif.Drv.Exclude.handlers ++
   CbiVerif.Drv.C08.handlers ++
-  CbiVerif.Drv.Argv.handlers
+  CbiVerif.Drv.Argv.handlers ++
+  CbiVerif.Drv.C01.handlers
 
 def handle (j : Json) : Json :=
   match j.getObjValAs? String "op" with
